@@ -162,7 +162,9 @@ def run(ctx, chk):
             key = (w, nt)
             where = f"{G.g['file']}:{nt_data['line']}"
             if key not in GUARANTEES:
-                chk.violation("C10.R5", f"{w}:{nt}", "unregistered-fallible-action", f"downstream nonterminal {nt} of the {w} grammar can return an error, and no upstream guarantee is known for it", where)
+                # the table of guarantees is keyed by nonterminal name: a renamed or split nonterminal cannot be told from
+                # a new fallible action by this rule, so this is reported as not decided, never as a defect
+                chk.undecided_("C10.R5", f"{w}:{nt}", f"downstream nonterminal {nt} of the {w} grammar can return an error and no upstream guarantee is registered for it")
             elif GUARANTEES[key] is None:
                 chk.violation("C10.R5", f"{w}:{nt}", "no-upstream-guarantee", f"{w} `{nt}` fails at run time ('Internal Error : Should not have reached here') for accepted programs: nothing upstream establishes its precondition", where)
             else:
